@@ -149,4 +149,33 @@ DateDays == {DayIndex(2023, 1, 1), DayIndex(2024, 2, 29), DayIndex(2024, 7, 15),
 Specs    == TimedSpec({"dow"}, 0..6, EvTimes) \cup TimedSpec({"dom"}, 1..31, EvTimes)
             \cup TimedSpec({"day"}, DateDays, EvTimes)
 OccTab   == TLCEval([s \in Specs |-> Occ(s)])     \* evaluated once
+-----------------------------------------------------------------------------
+(* WHICH specifications exist: the shapes of dawgie.MOMENT(boot, day, dom, dow,
+   time) an engine can hand to the pipeline -- the compliance rule (rule_10),
+   not the constructor, decides which of them run.  Every field is absent
+   ("none"), a value of the right type ("ok") or a value of a wrong type
+   ("bad", a string); boot is absent or True.  Representative values of the
+   "ok" fields: dow 2, dom 15, day 2024-02-29, time 12:00:00 (the values
+   themselves are the business of Specs above).
+   WellFormed is THE MODEL'S reading of "Only one of boot, date, dom, or dow
+   should be defined" + the field types + a time of day for everything but a
+   boot event.  The property quantifies over the shapes the REAL rule accepts:
+   for those, computing the delay never fails (and lands / is not further when
+   the shape is a timed specification). *)
+FieldSt   == {"none", "ok", "bad"}
+Shapes    == [boot : {"none", "ok"}, day : FieldSt, dom : FieldSt, dow : FieldSt, time : FieldSt]
+Defined(sh) == { f \in {"boot", "day", "dom", "dow"} : sh[f] # "none" }
+WellFormed(sh) ==
+    /\ Cardinality(Defined(sh)) = 1
+    /\ sh.day # "bad" /\ sh.dom # "bad" /\ sh.dow # "bad"
+    /\ sh.boot = "none" => sh.time = "ok"
+Timed(sh) == WellFormed(sh) /\ sh.boot = "none"
+ShapeNoon == 43200
+SpecOfShape(sh) == CASE sh.dow = "ok" -> [k |-> "dow", n |-> 2, t |-> ShapeNoon]
+                     [] sh.dom = "ok" -> [k |-> "dom", n |-> 15, t |-> ShapeNoon]
+                     [] sh.day = "ok" -> [k |-> "day", n |-> DayIndex(2024, 2, 29), t |-> ShapeNoon]
+(* clauses for a shape the real rule accepts *)
+FailedShape(sh, now, r) ==
+    IF Timed(sh) THEN FailedA(OccTab[SpecOfShape(sh)], now, r)
+    ELSE IF Computable(r) THEN {} ELSE {"C20.Computable"}
 =============================================================================
